@@ -1,4 +1,5 @@
 import DinoProofs.Lemmas.Dynamics
+import DinoProofs.Lemmas.DynamicsMasked
 import DinoProofs.Lemmas.DynamicsMoist
 import DinoProofs.Lemmas.DynamicsToy
 import Mathlib.Tactic.NormNum
@@ -313,6 +314,54 @@ theorem cloud_indep_of_reference_partial (eq : PrimitiveEquations K M N) (T₂ :
 
 end T43
 
+/-! ## the carrier is the MASKED coefficient space
+
+T4.2 – T4.4 are generic in the modal carrier `M`.  On the real `Grid` the laws `roundtrip`, `curl_grad`,
+`div_grad`, `div_uv` hold for masked coefficient arrays only (junk outside the triangular truncation survives
+`clip_wavenumbers` but not `to_modal ∘ to_nodal`), so the theorems are applied with `M := ↥Mk`, the submodule of
+masked arrays: every modal operation maps `Mk` to itself (`MaskClosed`), the laws are required on `Mk` only
+(`LawsOn`, `MoistLawsOn`), and the states have masked leaves (they are `State ↥Mk`).  `harness/props/C04.py`
+validates `MaskClosed` (exact zeros outside the mask), `LawsOn` (masked inputs) and the negative control (an
+unmasked input violates `roundtrip`) on every grid it uses. -/
+section Masked
+variable {K M N : Type} [Field K] [DecidableEq K] [AddCommGroup M] [Module K M] [CommRing N] [Algebra K N]
+
+/-- **T4.2 on the masked coefficient space**: laws restricted to the masked arrays `Mk` suffice -/
+theorem total_tendency_indep_of_reference_masked (eq : PrimitiveEquations K M N) (Mk : Submodule K M)
+    (C : MaskClosed eq.ops Mk) (ho : eq.orography ∈ Mk) (L : LawsOn eq.ops Mk) (T₂ : List K)
+    (s₁ : State Mk) (t₂ : List Mk) (n : ℕ) (A : Admissible (eq.ops.restrict Mk C) s₁)
+    (S : Shaped (eq.restrict Mk C ho) s₁ n) (hT₂ : T₂.length = n) (ht₂ : t₂.length = n)
+    (hinc : eq.includeVerticalAdvection = true) (h2 : (1 + 1 : K) ≠ 0)
+    (habs : ∀ i, i < n →
+      lv t₂ i + lv T₂ i • (eq.ops.restrict Mk C).oneModal
+        = lv s₁.temperatureVariation i + lv eq.referenceTemperature i • (eq.ops.restrict Mk C).oneModal) :
+    total (withTRef (eq.restrict Mk C ho) T₂) (s₁.withT t₂) = total (eq.restrict Mk C ho) s₁ :=
+  total_tendency_indep_of_reference (eq.restrict Mk C ho) T₂ s₁ t₂ n (laws_restrict C L) A S hT₂ ht₂ hinc h2 habs
+
+/-- **T4.3 on the masked coefficient space** -/
+theorem total_tendency_moist_indep_of_reference_masked [Div N] (eq : PrimitiveEquations K M N)
+    (Mk : Submodule K M) (C : MaskClosed eq.ops Mk) (ho : eq.orography ∈ Mk) (L : LawsOn eq.ops Mk)
+    (ML : MoistLawsOn eq.ops Mk) (T₂ : List K) (s₁ : StateWithTime K Mk) (t₂ qm : List Mk) (n : ℕ)
+    (A : Admissible (eq.ops.restrict Mk C) s₁.state) (S : Shaped (eq.restrict Mk C ho) s₁.state n)
+    (hT₂ : T₂.length = n) (ht₂ : t₂.length = n)
+    (hinc : eq.includeVerticalAdvection = true) (h2 : (1 + 1 : K) ≠ 0) (hR : eq.phys.R ≠ 0)
+    (hq : lookup specificHumidityKey s₁.state.tracers = some qm) (hqn : qm.length = n)
+    (hqc : ∀ x ∈ qm, (eq.ops.restrict Mk C).clip x = x)
+    (hdiv : ∀ i, i < n → ∀ x : N,
+      ((1 : N) + (eq.phys.CpVapor / (eq.phys.R / eq.phys.kappa) - 1) • eq.ops.toNodal (lv qm i).1)
+        * (x / ((1 : N) + (eq.phys.CpVapor / (eq.phys.R / eq.phys.kappa) - 1) • eq.ops.toNodal (lv qm i).1)) = x)
+    (habs : ∀ i, i < n →
+      lv t₂ i + lv T₂ i • (eq.ops.restrict Mk C).oneModal
+        = lv s₁.state.temperatureVariation i
+          + lv eq.referenceTemperature i • (eq.ops.restrict Mk C).oneModal) :
+    ∃ r, totalMoist (eq.restrict Mk C ho) s₁ = some r
+      ∧ totalMoist (withTRef (eq.restrict Mk C ho) T₂)
+          { state := s₁.state.withT t₂, simTime := s₁.simTime } = some r :=
+  total_tendency_moist_indep_of_reference (eq.restrict Mk C ho) T₂ s₁ t₂ qm n (laws_restrict C L)
+    (moistLaws_restrict C ML) A S hT₂ ht₂ hinc h2 hR hq hqn hqc hdiv habs
+
+end Masked
+
 /-! ## non-vacuity: the hypotheses of T4.2 – T4.4 on a concrete object; the cloud witness
 
 `Dino.Dynamics.Toy`: 2-jets in two variables over `ℚ` (a commutative algebra with two commuting
@@ -413,6 +462,71 @@ example : ∃ r, totalCloud exEq
     (by simp [exState, lookup, specificHumidityKey, cloudWaterKey]) rfl
     (by simp [exState, lookup, specificHumidityKey, cloudWaterKey, cloudIceKey]) rfl
     (by simp) (by simp) ex_div ex_abs
+
+/-! ### the masked reading on a grid where it matters: the toy grid with one coordinate outside the mask
+
+`toy.withJunk` has modal carrier `J × ℚ`; `clip` keeps the extra coordinate, every other operation zeroes it and
+`to_nodal` ignores it — the situation of the rectangular arrays of the real `Grid`.  The unrestricted `Laws`
+FAIL on it (`not_laws_withJunk`), the laws restricted to the masked part hold (`lawsOn_withJunk`), the masked part
+is closed (`withJunk_closed`), and T4.2 applies on the masked carrier. -/
+
+/-- a jet as a masked array of the junk extension -/
+def mkM (j : J) : ↥(maskedPart ℚ J) := ⟨(j, 0), (mem_maskedPart _).2 rfl⟩
+
+theorem mkM_zero : mkM 0 = 0 := rfl
+
+def exEqJ : PrimitiveEquations ℚ (J × ℚ) J :=
+  { ops := toy.withJunk, vert := exEq.vert, phys := exEq.phys
+    referenceTemperature := exEq.referenceTemperature, orography := (exEq.orography, 0) }
+
+def exStateJ : State ↥(maskedPart ℚ J) :=
+  { vorticity := (exState []).state.vorticity.map mkM
+    divergence := (exState []).state.divergence.map mkM
+    temperatureVariation := (exState []).state.temperatureVariation.map mkM
+    logSurfacePressure := mkM (exState []).state.logSurfacePressure
+    tracers := [] }
+
+/-- the unrestricted laws fail on this grid; the restricted ones hold and the mask is closed -/
+example : ¬ Laws toy.withJunk := not_laws_withJunk toy rfl
+example : LawsOn toy.withJunk (maskedPart ℚ J) := lawsOn_withJunk toy toy_laws
+example : MoistLawsOn toy.withJunk (maskedPart ℚ J) := moistLawsOn_withJunk toy toy_moistLaws
+example : MaskClosed toy.withJunk (maskedPart ℚ J) := withJunk_closed toy
+
+/-- the unmasked array `(0, 1)` is "clipped" but does not survive the nodal round trip -/
+example : toy.withJunk.clip ((0 : J), (1 : ℚ)) = (0, 1) ∧
+    toy.withJunk.clip (toy.withJunk.toModal (toy.withJunk.toNodal ((0 : J), (1 : ℚ)))) ≠ (0, 1) := by
+  refine ⟨rfl, fun h => ?_⟩
+  have := congrArg Prod.snd h
+  exact zero_ne_one this
+
+/-- **T4.2 on the masked carrier of the junk grid**: every hypothesis instantiated -/
+theorem masked_example :
+    total (withTRef (exEqJ.restrict (maskedPart ℚ J) (withJunk_closed toy) ((mem_maskedPart _).2 rfl)) exT₂)
+        (exStateJ.withT (exT'.map mkM))
+      = total (exEqJ.restrict (maskedPart ℚ J) (withJunk_closed toy) ((mem_maskedPart _).2 rfl)) exStateJ := by
+  have A0 := ex_admissible ([] : List (String × List J))
+  refine total_tendency_indep_of_reference_masked exEqJ (maskedPart ℚ J) (withJunk_closed toy)
+    ((mem_maskedPart _).2 rfl) (lawsOn_withJunk toy toy_laws) exT₂ exStateJ (exT'.map mkM) 2
+    ⟨?_, ?_, ?_, ?_⟩ ⟨by norm_num, rfl, rfl, rfl, rfl, rfl, rfl⟩ rfl rfl rfl (by norm_num) ?_
+  · intro z hz
+    obtain ⟨j, hj, rfl⟩ := List.mem_map.1 hz
+    exact Subtype.ext (Prod.ext (A0.vort_clip j hj) rfl)
+  · intro z hz
+    obtain ⟨j, hj, rfl⟩ := List.mem_map.1 hz
+    exact Subtype.ext (Prod.ext (A0.div_clip j hj) rfl)
+  · intro z hz
+    obtain ⟨j, hj, rfl⟩ := List.mem_map.1 hz
+    exact Subtype.ext (Prod.ext (A0.div_mean j hj) rfl)
+  · exact Subtype.ext (Prod.ext A0.lsp_clip rfl)
+  · intro i hi
+    have h0 := ex_abs (tr := []) i hi
+    show lv (exT'.map mkM) i + lv exT₂ i • mkM exEq.ops.oneModal
+      = lv ((exState []).state.temperatureVariation.map mkM) i + lv exEq.referenceTemperature i • mkM exEq.ops.oneModal
+    rw [lv_map_zero mkM mkM_zero, lv_map_zero mkM mkM_zero]
+    apply Subtype.ext
+    apply Prod.ext
+    · exact h0
+    · simp [mkM]
 
 /-- **T4.4, the negation of the full statement with a concrete witness**: there is a grid
  satisfying every named law, an admissible state with condensate and two reference profiles of the same
